@@ -435,6 +435,7 @@ type c09Ev struct {
 	vote *c09Vote
 	blk  *c09Block
 	view uint64 // 'T': the view of the timeout certificate
+	on   bool   // 'A': the block becomes (true) / stops being (false) fetchable from the other replicas
 }
 
 func (e c09Ev) term() string {
@@ -447,6 +448,8 @@ func (e c09Ev) term() string {
 		return ""
 	case 'T':
 		return fmt.Sprintf("(TC %s)", gN(e.view))
+	case 'A':
+		return ""
 	default:
 		return fmt.Sprintf("(H %s %s)", gN(uint64(e.blk.id)), gN(e.blk.view))
 	}
@@ -461,6 +464,11 @@ func (e c09Ev) short() string {
 		return "membership grows to the full configuration"
 	case 'T':
 		return fmt.Sprintf("highTC->view %d", e.view)
+	case 'A':
+		if e.on {
+			return "block " + e.blk.name + " becomes fetchable from the other replicas"
+		}
+		return "block " + e.blk.name + " is no longer fetchable from the other replicas"
 	default:
 		return "highQC->" + e.blk.name
 	}
@@ -609,6 +617,12 @@ func (r *c09Run) deliver(e c09Ev) {
 		r.grown = r.w.n
 	case 'T': // the synchronizer records a (genuine) timeout certificate: ViewStates.UpdateHighTC
 		r.vs.UpdateHighTC(r.w.tc(e.view))
+	case 'A': // what sender.RequestBlock can deliver changes
+		if e.on {
+			r.sender.remote[e.blk.blk.Hash()] = e.blk.blk
+		} else {
+			delete(r.sender.remote, e.blk.blk.Hash())
+		}
 	default:
 		r.bc.Store(e.blk.blk)
 		_, _ = r.vs.UpdateHighQC(hotstuff.NewQuorumCert(nil, e.blk.blk.View(), e.blk.blk.Hash()))
@@ -780,23 +794,33 @@ func (w *c09World) exactness(B *c09Block, store0, remote []*c09Block, evs []c09E
 			fetchable = true
 		}
 	}
-	waiting := false // a vote naming B (valid or not) is delayed until the next proposal
-	lower, upper := map[uint64]bool{}, map[uint64]bool{}
+	// votes count once they have been processed while the block was obtainable (held, or fetched at that moment);
+	// votes that wait for the block (pending) are released by the next proposal: they count if that proposal is the
+	// block's own or the block can be fetched right then, otherwise they are dropped
+	waiting := false                                       // a vote naming B (valid or not) is delayed until the next proposal
+	lower, upper := map[uint64]bool{}, map[uint64]bool{}   // counted
+	lowerP, upperP := map[uint64]bool{}, map[uint64]bool{} // pending
 	emitted := false
 	for k, e := range evs {
 		switch e.kind {
-		case 'P':
-			if !known && e.blk != B && waiting {
-				// a foreign proposal releases the delayed votes: they are retried through the fetch
-				if !fetchable {
-					return // the delayed votes for B are lost with the failed fetch: outside the claim
-				}
-				known = true
-			}
+		case 'A':
 			if e.blk == B {
-				known = true
+				fetchable = e.on
 			}
-			waiting = false
+			continue
+		case 'M':
+			continue
+		case 'P':
+			if !known && (e.blk == B || (waiting && fetchable)) {
+				known = true
+				for x := range lowerP {
+					lower[x] = true
+				}
+				for x := range upperP {
+					upper[x] = true
+				}
+			}
+			lowerP, upperP, waiting = map[uint64]bool{}, map[uint64]bool{}, false
 		case 'H':
 			if e.blk.view >= B.view {
 				return // B is no longer newer than the high QC
@@ -806,11 +830,15 @@ func (w *c09World) exactness(B *c09Block, store0, remote []*c09Block, evs []c09E
 				waiting = true
 			}
 			if e.vote.hash == B.id && e.vote.fullyValid(w) {
+				lo, up := lower, upper
+				if !known {
+					lo, up = lowerP, upperP
+				}
 				for _, s := range e.vote.sigs {
-					upper[s.lab] = true
+					up[s.lab] = true
 				}
 				if len(e.vote.sigs) == 1 {
-					lower[e.vote.sigs[0].lab] = true
+					lo[e.vote.sigs[0].lab] = true
 				}
 			}
 		}
@@ -826,7 +854,7 @@ func (w *c09World) exactness(B *c09Block, store0, remote []*c09Block, evs []c09E
 		}
 		if known && len(lower) >= w.q && !emitted {
 			w.v.Oracle(false, "votingmachine.collect:quorum-present-no-qc",
-				fmt.Sprintf("after stimulus %d the block is known and valid votes from %d distinct members (quorum %d) have arrived, but no QC was emitted", k, len(lower), w.q), input())
+				fmt.Sprintf("after stimulus %d the block is known and valid votes from %d distinct members (quorum %d) have been processed while it was obtainable, but no QC was emitted", k, len(lower), w.q), input())
 			return
 		}
 		if emitted && (!known || len(upper) < w.q) {
@@ -874,13 +902,31 @@ func (w *c09World) syncCase(s *verifStream, stream string, store0, remote []*c09
 		outT[i] = c09QCsTerm(o)
 		nqc += len(o)
 	}
-	// the kernel sees the stimuli without the membership growth (the model's membership is the final one)
-	var kEv, kOut []string
+	// the kernel sees the stimuli without the membership growth (the model's membership is the final one); when
+	// the fetchable blocks change over the script, every stimulus is paired with what was fetchable at that moment
+	var kEv, kOut, kAv []string
+	cur := append([]*c09Block(nil), remote...)
+	changing := false
 	for i, e := range evs {
 		if e.kind == 'M' {
 			continue
 		}
+		if e.kind == 'A' {
+			changing = true
+			var next []*c09Block
+			for _, b := range cur {
+				if b != e.blk {
+					next = append(next, b)
+				}
+			}
+			if e.on {
+				next = append(next, e.blk)
+			}
+			cur = next
+			continue
+		}
 		kEv = append(kEv, evT[i])
+		kAv = append(kAv, fmt.Sprintf("(%s, %s)", c09BlocksTerm(cur), evT[i]))
 		if i < len(outT) {
 			kOut = append(kOut, outT[i])
 		}
@@ -921,6 +967,14 @@ func (w *c09World) syncCase(s *verifStream, stream string, store0, remote []*c09
 			w.exactness(w.blocks["E"], store0, remote, evs, outs, meta)
 			break
 		}
+	}
+	if changing {
+		w.v.Count("block-availability-changes")
+		if okState {
+			w.v.Case(w.v.Stream(s.name+"av", "va_mismatches", s.perFile), fmt.Sprintf("(%s, %s, %s, %s, %s, %s)", w.members, c09BlocksTerm(store0),
+				gList(kAv), gList(kOut), c09BucketsTerm(bk), gNat(nd)), meta())
+		}
+		return
 	}
 	if !okState {
 		// the collector's private tables cannot be read in this tree: the kernel compares the certificates only
@@ -1440,6 +1494,54 @@ func TestVerifC09(t *testing.T) {
 		}
 	}
 
+	// (a7) block availability over time: the voted block is not held; it is fetchable from the start, never, or
+	// only from some point of the script on (and possibly not any more later), or arrives as a proposal in the
+	// middle. k early votes wait for it, a proposal for another block releases them (first fetch attempt), the
+	// remaining votes arrive and are released by a second proposal (another block's, or B's own).
+	for _, n := range []int{4, 7} {
+		w := world(crypto.NameECDSA, n)
+		B, C, D := w.blocks["B"], w.blocks["C"], w.blocks["D"]
+		noB := []*c09Block{w.blocks["G"], w.blocks["O"], w.blocks["L3"]}
+		A := func(on bool) c09Ev { return c09Ev{kind: 'A', blk: B, on: on} }
+		var hon []c09Ev
+		for i := 1; i <= n; i++ {
+			hon = append(hon, V(w.honest(i, B)))
+		}
+		for early := 1; early <= 3 && early < n; early++ {
+			for _, second := range []*c09Block{C, B} {
+				var script []c09Ev
+				script = append(script, hon[:early]...)
+				script = append(script, P(D))
+				script = append(script, hon[early:]...)
+				script = append(script, P(second), hon[0])
+				for on := 0; on <= len(script)+1; on++ { // len+1 = never
+					offs := []int{-1}
+					if on <= len(script) {
+						offs = append(offs, on+1, on+3)
+					}
+					for _, off := range offs {
+						if n == 7 && !deep && (on+early)%2 == 1 {
+							continue
+						}
+						evs := []c09Ev{Hi(w.blocks["L3"])}
+						for i := 0; i <= len(script); i++ {
+							if i == on {
+								evs = append(evs, A(true))
+							}
+							if i == off {
+								evs = append(evs, A(false))
+							}
+							if i < len(script) {
+								evs = append(evs, script[i])
+							}
+						}
+						w.syncCase(sPerm, "availability", noB, []*c09Block{w.blocks["R"]}, evs)
+					}
+				}
+			}
+		}
+	}
+
 	// (b) seeded random stream: every scheme, n in {4,7}, several hostile votes, duplicates after the
 	// certificate, foreign proposals, fetches, high-QC moves below and above the block
 	schemes := []string{crypto.NameECDSA, crypto.NameEDDSA, crypto.NameBLS12}
@@ -1506,6 +1608,15 @@ func TestVerifC09(t *testing.T) {
 			pool = append(pool, P(w.blocks["C"]))
 		case 3:
 			pool = append(pool, Hi(w.blocks["D"]))
+		}
+		if !haveB && v.rng.Intn(3) == 0 { // the block becomes fetchable (and maybe unfetchable again) at some point
+			pool = append(pool, c09Ev{kind: 'A', blk: B, on: true})
+			if v.rng.Intn(3) == 0 {
+				pool = append(pool, c09Ev{kind: 'A', blk: B, on: false})
+			}
+			if v.rng.Intn(2) == 0 {
+				pool = append(pool, P(w.blocks["D"]))
+			}
 		}
 		if v.rng.Intn(4) == 0 { // an equivocating block of B's view gathers votes of its own
 			E := w.blocks["E"]
